@@ -587,7 +587,7 @@ def tok_roles(ctx):
 @prop('C10',
       'TSPAN: at every construction of a token, both span fields are proved in-bounds char boundaries (SLICE domain) and the token text is the input slice over exactly the span\'s range — same values by provenance, or two reads of the scanner position with no advancing call in between; '
       'String: input[span.start + 1 .. span.end - 1] (the characters between the quotes, a sub-slice of the input, never a built string: no escape processing); Number: the value is parsed from input[span]; text handed in as a parameter must come, together with the start, from one scanner call whose text is input[start .. position]. '
-      'SLICE: every slice bound is a char boundary (see C01). TWS: the whitespace predicate (role: the char predicate guarding the advance in the skipper that runs before the dispatching character is read), evaluated over a finite partition of char, accepts SP, TAB, CR, LF and nothing that is not Unicode white space. MUNCH: in the symbolic-operator scanner the run is extended iff the longer slice is a registered operator; no other condition cuts it short (longest registered operator). '
+      'SLICE: every slice bound is a char boundary (see C01). TWS: the whitespace predicate (role: the char predicate guarding the advance in the skipper that runs before the dispatching character is read), evaluated over a finite partition of char, accepts SP, TAB, CR, LF and nothing that is not Unicode white space. MUNCH: in the symbolic-operator scanner the run is extended iff the longer slice is a registered operator; no other condition cuts it short (longest registered operator), and that membership test reaches no static other than the registries / once flag (it answers from what is registered now, not from a remembered probe). '
       'WORDSCAN: the look-ahead that tests a word against the operator registry and the scanner that cuts the operator token consult character predicates with the same accepting set (sibling agreement over a finite partition of char); WORDSTOP: both stop at SP, TAB, CR, LF. '
       'CHARUNITS: a count-based step / counted loop over a character iterator is never given a byte quantity. '
       'BOOLWORD: a Function / Reference token is built for a scanned word only where the word compared unequal to true / True / false / False (the four words are booleans whatever follows them). '
